@@ -157,9 +157,9 @@ fn other_cfg(cfg: &Cfg) -> Cfg {
     o
 }
 
-fn check_cfg(ctx: &Ctx, cfg: &Cfg, k_workers: usize, cont_len: usize, hist_depth: usize, thread_hist_depth: usize) -> JobOut {
+fn check_cfg(ctx: &Ctx, cfg: &Cfg, k_workers: usize, cont_len: usize, hist_depth: usize, thread_hist_depth: usize, rough: bool) -> JobOut {
     let mut out = JobOut::default();
-    let alpha = generic_alphabet(cfg.kind, false);
+    let alpha = if rough { roughen(&generic_alphabet(cfg.kind, false)) } else { generic_alphabet(cfg.kind, false) };
     let other = other_cfg(cfg);
     let pool = Pool::new(k_workers);
     let counts = vec![cont_len; 3];
@@ -261,14 +261,16 @@ fn check_cfg(ctx: &Ctx, cfg: &Cfg, k_workers: usize, cont_len: usize, hist_depth
 /// to 2n+2) must follow, for every continuation of n+2 inputs, a fresh instance
 /// replaying the same operations - while the original is fed a different
 /// continuation in between (alternating steps).
-fn long_continuations(ctx: &Ctx, cfg: &Cfg, hist_depth: usize) -> JobOut {
+fn long_continuations(ctx: &Ctx, cfg: &Cfg, hist_depth: usize, rough: bool) -> JobOut {
     let mut out = JobOut::default();
-    let alpha = generic_alphabet(cfg.kind, false);
+    let alpha = if rough { roughen(&generic_alphabet(cfg.kind, false)) } else { generic_alphabet(cfg.kind, false) };
     let n = cfg.max_period();
     let clen = n + 2;
     let mut hists: Vec<Vec<Op>> = vec![vec![]];
-    for_each_seq(alpha.len(), None, hist_depth, |seq| {
-        hists.push(seq.iter().map(|&a| alpha[a as usize]).collect());
+    // histories may contain resets: a clone taken right after (or some inputs after) a reset
+    let halpha = with_reset(alpha.clone());
+    for_each_seq(halpha.len(), None, hist_depth, |seq| {
+        hists.push(seq.iter().map(|&a| halpha[a as usize]).collect());
         true
     });
     for l in hist_depth + 1..=2 * n + 2 {
@@ -457,8 +459,14 @@ pub fn run(ctx: &Ctx) -> CheckResult {
         cfgs.extend(generic_cfgs(k, &[1, 3], &[1, 3]).into_iter().filter(|c| c.kind.nperiods() < 2 || c.p[0] != c.p[1] || c.p[0] == 3));
     }
     // each job owns a private worker pool, so jobs run in parallel without sharing threads
-    let outs = par_run(ctx, &cfgs, |_, cfg| check_cfg(ctx, cfg, k_workers, cont_len, hist_depth, thread_hist_depth));
+    let outs = par_run(ctx, &cfgs, |_, cfg| check_cfg(ctx, cfg, k_workers, cont_len, hist_depth, thread_hist_depth, false));
     res.absorb(merge_jobs(outs));
+    // the same with an inexact alphabet (bit-equality is the oracle: summation order / buffer layout must not matter);
+    // thread assignments only for the shortest histories here
+    if !res.out.failed() {
+        let outs = par_run(ctx, &cfgs, |_, cfg| check_cfg(ctx, cfg, k_workers, cont_len, hist_depth, 0, true));
+        res.absorb(merge_jobs(outs));
+    }
     // (D) long continuations after the clone
     if !res.out.failed() {
         let mut c2 = vec![];
@@ -466,8 +474,12 @@ pub fn run(ctx: &Ctx) -> CheckResult {
             c2.extend(generic_cfgs(k, if th { &[1, 2, 3, 4, 5, 6] } else { &[1, 2, 3, 4, 5] }, &[2, 4]));
         }
         c2.sort_by_key(|c| std::cmp::Reverse(c.max_period()));
-        let outs = par_run(ctx, &c2, |_, cfg| long_continuations(ctx, cfg, if th { 3 } else { 2 }));
+        let outs = par_run(ctx, &c2, |_, cfg| long_continuations(ctx, cfg, if th { 3 } else { 2 }, false));
         res.absorb(merge_jobs(outs));
+        if !res.out.failed() {
+            let outs = par_run(ctx, &c2, |_, cfg| long_continuations(ctx, cfg, if th { 3 } else { 2 }, true));
+            res.absorb(merge_jobs(outs));
+        }
     }
     // DataItem clone
     if !res.out.failed() {
@@ -489,7 +501,7 @@ pub fn run(ctx: &Ctx) -> CheckResult {
     res.require(res.out.stats.counters.get("schedules_threads").copied().unwrap_or(0) > 1 || res.out.failed(), "no multi-thread schedule was executed");
     res.rule = "case = (configuration, history h at which the clone is taken, schedule): objects {original after h, its clone, unrelated instance with other parameters} each get a continuation; a schedule = interleaving of their operations + assignment of every step to a real OS worker thread; oracle = every output bit-identical to a fresh instance replaying that object's own operations on the main thread; non-trivial = schedule executed on >= 1 worker thread other than main".into();
     res.bounds = format!(
-        "all 22 indicators, periods {{1,3}}; every history in seq(4 symbols, {hist_depth}) as clone point; (A) all {} merges of 3x{cont_len} ops on one thread; (B) histories up to length {thread_hist_depth}: 3 canonical merges x all worker assignments up to renaming on {k_workers} real threads x clone taken on worker 0/1; (C) all 16x16 continuation pairs for original/clone under 3 sequential schedules; (D) periods 1..5(6): clone after every history up to depth 2(3) and after every prefix up to 2n+2 of two default streams, every continuation of n+2 inputs over 3 symbols for the clone while the original is fed different inputs in between; plus {rounds} free-running 16-thread rounds (SAMPLING, not part of the exhaustive claim)",
+        "all 22 indicators, periods {{1,3}}, each part on the exact alphabet and on an inexact one (x -> 0.7x+0.013, so that summation order and buffer layout are observable under bit-equality); every history in seq(4 symbols, {hist_depth}) as clone point; (A) all {} merges of 3x{cont_len} ops on one thread; (B) histories up to length {thread_hist_depth}: 3 canonical merges x all worker assignments up to renaming on {k_workers} real threads x clone taken on worker 0/1; (C) all 16x16 continuation pairs for original/clone under 3 sequential schedules; (D) periods 1..5(6): clone after every history up to depth 2(3) and after every prefix up to 2n+2 of two default streams, every continuation of n+2 inputs over 3 symbols for the clone while the original is fed different inputs in between; plus {rounds} free-running 16-thread rounds (SAMPLING, not part of the exhaustive claim)",
         merges(&vec![cont_len; 3]).len()
     );
     let mut assumptions = vec![
